@@ -3,6 +3,7 @@ package rules
 import (
 	"fmt"
 	"go/constant"
+	"go/token"
 	"go/types"
 	"sort"
 	"strings"
@@ -231,6 +232,20 @@ func walkCallback(c *core.Ctx, rule string) (*ssa.Function, *ssa.Function) {
 		return nil, nil
 	}
 	cbs := closuresPassedTo(walk, psc, 2)
+	if len(cbs) == 0 {
+		// the walk hands its arguments on to a worker of the package (WalkNodesInStreamWithOptions) that does it
+		for _, b := range walk.Blocks {
+			for _, in := range b.Instrs {
+				if ci, ok := in.(ssa.CallInstruction); ok {
+					if g := core.Callee(ci.Common()); g != nil && g != walk && core.FnPkgPath(g) == utilsPkg {
+						if more := closuresPassedTo(g, psc, 2); len(more) > 0 {
+							cbs = append(cbs, more...)
+						}
+					}
+				}
+			}
+		}
+	}
 	if len(cbs) != 1 {
 		c.Undecide(rule, core.FuncName(walk), "callback", c.P.Pos(walk.Pos()), fmt.Sprintf("expected WalkNodesInStream to hand one callback to ParseStreamCallback, found %d", len(cbs)), nil)
 		return walk, nil
@@ -547,7 +562,7 @@ func init() {
 			"C06-R5 the keywords today/yesterday/last7/last30 derive from the supplied now and nothing derives from time.Now; " +
 			"C06-R6 the summary window is time.Date(Year,Month,Day of the requested date, 0:00 / last instant, the date's own Location), wherever it is built, and it replaces the period: neither bound is set only where -b/-e had left none; " +
 			"C06-R7 time-zone dependent calls (Local, In, UTC, ParseInLocation, LoadLocation, time.Local) occur only at the two allowed sites, so no date is moved to the process zone or across a daylight-saving switch; " +
-			"C06-R8 the two bounds of a period never point at one variable that is assigned more than once (begin and end parsed into a shared temporary would both end as the last value parsed); " +
+			"C06-R8 in package options a bound derives from its own flag only, and the two bounds of a period never point at one variable that is assigned more than once (begin and end parsed into a shared temporary would both end as the last value parsed); " +
 			"C06-R9 on every successful path through Options.Load the date format and the current date that the period bounds were resolved with are the ones the path ends with (the bounds are resolved after --today, --date-format and the configuration file have been applied).",
 		NotDecided: "time-zone independence of date parsing itself, equality of a filtered run with the run on the filtered file",
 		Assumptions: []string{
@@ -581,6 +596,8 @@ func ruleOwnBoundCells(c *core.Ctx, rule string) {
 	}
 	cells := map[*ssa.Alloc]*use{}
 	stores := 0
+	var flowG *flow.Graph
+	var foreign []string
 	for _, fn := range c.P.Funcs {
 		for _, b := range fn.Blocks {
 			for _, in := range b.Instrs {
@@ -610,6 +627,25 @@ func ruleOwnBoundCells(c *core.Ctx, rule string) {
 				if !ok {
 					continue
 				}
+				// in the options package a bound is what its own flag says (-b for the beginning, -e for the end): a bound
+				// filled in from anything else (today, the other bound) changes which days a period selects
+				if core.FnPkgPath(fn) == optionsPkg && a.Referrers() != nil {
+					want := map[string]string{"BeginningTime": "begin", "EndTime": "end"}[name]
+					for _, r := range *a.Referrers() {
+						st2, isSt := r.(*ssa.Store)
+						if !isSt || st2.Addr != ssa.Value(a) {
+							continue
+						}
+						if flowG == nil {
+							flowG = buildFlow(c)
+						}
+						if !flowG.Reaches(flow.ValueNode(st2.Val), func(nd flow.Node) bool {
+							return strings.HasPrefix(string(nd), "flag:") && strings.Contains(string(nd), "("+want+")")
+						}) {
+							foreign = append(foreign, fmt.Sprintf("%s|%s|%s", core.FuncName(fn), name, c.P.Pos(st.Pos())))
+						}
+					}
+				}
 				if cells[a] == nil {
 					cells[a] = &use{fields: map[string]string{}, fn: fn}
 				}
@@ -620,6 +656,10 @@ func ruleOwnBoundCells(c *core.Ctx, rule string) {
 	if stores == 0 {
 		c.Undecide(rule, "filter", "universe", "-", "nothing stores into filter.Config's bounds", nil)
 		return
+	}
+	for _, f := range uniq(foreign) {
+		parts := strings.SplitN(f, "|", 3)
+		c.Violate(rule, parts[0], parts[1]+" source", parts[2], "the "+parts[1]+" of the period is set from something other than its own flag (the value stored does not derive from --"+map[string]string{"BeginningTime": "begin", "EndTime": "end"}[parts[1]]+"): a period that is given one bound only, or none, is closed or moved by the program, so days the user did not exclude are missing", nil)
 	}
 	bad := 0
 	for a, u := range cells {
@@ -939,6 +979,21 @@ func ruleBoundsAfterSettings(c *core.Ctx, rule string) {
 			resolved++
 			curNow := x.Load(s, absint.Ptr{Loc: nowLoc}, get.Params[0].Type())
 			curFmt := x.Load(s, absint.Ptr{Loc: fmtLoc}, get.Params[1].Type())
+			// a value read once before a loop over the lineage is generalised at the loop head under another name than
+			// the cell it was read from: it still is the current setting when the function that read it cannot have
+			// changed the setting in between
+			sameByRead := func(i int, field string) bool {
+				if i >= len(site.Common().Args) || !strings.HasPrefix(args[i].Key(), "§j:") {
+					return false
+				}
+				return readOfUnchangedField(c.P, site.Parent(), site.Common().Args[i], field)
+			}
+			if args[0].Key() != curNow.Key() && sameByRead(0, "Now") {
+				args[0] = curNow
+			}
+			if args[1].Key() != curFmt.Key() && sameByRead(1, "DateFormat") {
+				args[1] = curFmt
+			}
 			if args[0].Key() != curNow.Key() {
 				bad = append(bad, fmt.Sprintf("%s: a period bound is resolved relative to %s, not to the options' current date", c.P.Pos(site.Pos()), args[0].Key()))
 			}
@@ -993,4 +1048,41 @@ func ruleBoundsAfterSettings(c *core.Ctx, rule string) {
 		}
 		c.Violate(rule, fname, "bounds-after-settings", c.P.Pos(load.Pos()), m, nil)
 	}
+}
+
+// readOfUnchangedField: v is a load of a field called name (o.GlobalConfig.DateFormat) made in fn, and neither fn nor
+// a function of the tree it calls stores into a field of that name.
+func readOfUnchangedField(p *core.Program, fn *ssa.Function, v ssa.Value, name string) bool {
+	ld, ok := v.(*ssa.UnOp)
+	if !ok || ld.Op != token.MUL {
+		return false
+	}
+	fa, ok := ld.X.(*ssa.FieldAddr)
+	if !ok || fieldName(fa.X.Type(), fa.Field) != name {
+		return false
+	}
+	var storesField func(g *ssa.Function, depth int) bool
+	seen := map[*ssa.Function]bool{}
+	storesField = func(g *ssa.Function, depth int) bool {
+		if g == nil || seen[g] || depth > 3 {
+			return false
+		}
+		seen[g] = true
+		for _, b := range g.Blocks {
+			for _, in := range b.Instrs {
+				switch t := in.(type) {
+				case *ssa.Store:
+					if a, ok := t.Addr.(*ssa.FieldAddr); ok && fieldName(a.X.Type(), a.Field) == name {
+						return true
+					}
+				case ssa.CallInstruction:
+					if cal := core.Callee(t.Common()); cal != nil && p.InScope(cal) && storesField(cal, depth+1) {
+						return true
+					}
+				}
+			}
+		}
+		return false
+	}
+	return !storesField(fn, 0)
 }
